@@ -1,5 +1,6 @@
 """C18 — execute always answers with a well-formed GraphQL response."""
 import asyncio
+import copy
 import itertools
 import json
 import re
@@ -41,6 +42,7 @@ class Coercer:
         self.kind = kind
         self.issued = []
         self.calls = 0
+        self.stale = 0      # error dicts handed over that already carried the stamp of an earlier call
 
     async def __call__(self, exception, error):
         self.calls += 1
@@ -52,6 +54,14 @@ class Coercer:
             return {"message": "rewritten", "path": error.get("path"), "locations": error.get("locations"), "stamp": n}
         n = next(_stamp)
         self.issued.append(n)
+        if self.kind == "annotating" and isinstance(error.get("extensions"), dict):
+            # the documentation's example shape: write into the extensions of the error that was handed over
+            if "stamp" in error["extensions"]:
+                self.stale += 1
+            error["extensions"]["stamp"] = n
+            return error
+        if "stamp" in error:
+            self.stale += 1
         error["stamp"] = n
         return error
 
@@ -135,7 +145,8 @@ def hostile_opname(rng, names):
     r = rng.random()
     if r < 0.5:
         return rng.choice(names) if names else None
-    return rng.choice([None, "", "NoSuchOp_", 5, True, "query", " ", "é"])
+    return rng.choice([None, "", "NoSuchOp_", 5, True, "query", " ", "é", "None", "null", "undefined", "mutation", "__typename", "0",
+                       "None", "anonymous"])
 
 
 def line_lengths(query):
@@ -186,8 +197,8 @@ def parse_info(query):
 
 async def run_case(ctx, rng, index):
     st = ctx.stats
-    s = smodel.gen_schema(rng, smodel.GenOpts(p_mutation=0.3))
-    kind = rng.choice(["default", "stamping", "stamping", "rewriting", "yielding"])
+    s = smodel.gen_schema(rng, smodel.GenOpts(p_mutation=0.3, p_schema_pass=0.2))
+    kind = rng.choice(["default", "stamping", "stamping", "rewriting", "yielding", "annotating", "annotating"])
     coercer = None if kind == "default" else Coercer(kind)
     b = harness.Bundle(s, **({} if coercer is None else {"error_coercer": coercer}))
     await b.build()
@@ -195,6 +206,7 @@ async def run_case(ctx, rng, index):
         reqs = [X.gen_request(rng, s, docgen.DocOpts(n_ops=rng.choice([(1, 1), (2, 3)]), max_fields=10, max_depth=3,
                                                      op_kinds=("query", "mutation"))) for _ in range(4)]
         texts = [r.text for r in reqs]
+        prev = None
         for _ in range(INPUTS_PER_CASE):
             base = rng.choice(reqs)
             query = hostile_input(rng, [base.text] if rng.random() < 0.7 else texts)
@@ -203,7 +215,7 @@ async def run_case(ctx, rng, index):
             w = world_mod.World(s, base.wseed)
             context = rng.choice([{"world": w}] * 6 + [None, 5, {"no": "world"}])
             if coercer:
-                coercer.issued, coercer.calls = [], 0
+                coercer.issued, coercer.calls, coercer.stale = [], 0, 0
             case = {"sdl": b.sdl, "query": repr(query)[:3000], "operation_name": repr(opname), "variables": repr(variables)[:300],
                     "context": repr(context)[:60], "coercer": kind}
             try:
@@ -213,6 +225,13 @@ async def run_case(ctx, rng, index):
                 ctx.violation("execute-raised", "%r for query=%s opname=%r variables=%s" % (e, repr(query)[:200], opname, repr(variables)[:100]), case)
                 continue
             st.inc("evaluations")
+            if prev is not None and X.jdump(prev[0]) != X.jdump(prev[1]):
+                ctx.violation("returned-response-changed-later", "the response of the previous request was %s when returned and is %s after this "
+                              "request" % (repr(prev[1])[:200], repr(prev[0])[:200]), dict(case, previous=prev[2]))
+            try:
+                prev = (resp, copy.deepcopy(resp), case)
+            except Exception:  # noqa
+                prev = None
             env = X.check_envelope(resp)
             if env:
                 ctx.violation("envelope", env, case)
@@ -238,7 +257,11 @@ async def run_case(ctx, rng, index):
                     if resp["data"] is not None or not errs or w.calls or w.tr_calls:
                         ctx.violation("failed-operation-selection-ran", "opname=%r names=%s data=%r calls=%d" % (opname, names, resp["data"], len(w.calls)), case)
             if coercer:
-                stamps = [e.get("stamp") for e in errs if isinstance(e, dict)]
+                stamps = [e.get("stamp", (e.get("extensions") or {}).get("stamp") if isinstance(e.get("extensions"), dict) else None)
+                          for e in errs if isinstance(e, dict)]
+                if coercer.stale:
+                    ctx.violation("error-coercer-handed-used-error", "%d of %d error dicts handed to the coercer already carried the stamp of an "
+                                  "earlier call (state shared between reported errors)" % (coercer.stale, coercer.calls), case)
                 if coercer.calls != len(errs):
                     ctx.violation("error-coercer-count", "awaited %d times for %d reported errors" % (coercer.calls, len(errs)), case)
                 elif sorted(stamps, key=repr) != sorted(coercer.issued, key=repr):
@@ -247,7 +270,7 @@ async def run_case(ctx, rng, index):
             try:
                 json.dumps(resp, allow_nan=False)
             except Exception as e:  # noqa
-                ctx.violation("not-json-serialisable", repr(e)[:200], case)
+                ctx.violation("not-json-serialisable", repr(e)[:200], case, exc=False)
             if errs:
                 st.distinct("nontrivial", (repr(query), repr(opname), repr(variables)))
                 st.distinct("error_messages", errs[0].get("message", "")[:40] if isinstance(errs[0], dict) else "?")
